@@ -9,6 +9,9 @@ var (
 	// ErrStackOverflow is a stack overflow error.
 	ErrStackOverflow = errors.New("stack overflow")
 
+	// ErrDivisionByZero is an integer division (or modulo) by zero error.
+	ErrDivisionByZero = errors.New("integer division by zero")
+
 	// ErrObjectAllocLimit is an objects allocation limit error.
 	ErrObjectAllocLimit = errors.New("object allocation limit exceeded")
 
